@@ -14,8 +14,6 @@ LIST = [
   'FC5/FC6/FC23 read the cells back after writing them: when the datastore fails in that read-back the request is answered with exception 04 although the cells were already changed'),
  ('KF-C07-MBAP-LEN', 'C07', {'class': 'unjustified-delivery', 'framing': 'tcp', 'why': 'mbap-length-inconsistent'},
   'TCP: a frame whose MBAP length disagrees with the length the PDU\'s function code and count fields imply (over-long or short PDU) is delivered; decoders ignore trailing bytes / read what is there'),
- ('KF-C07-ASCII-NONHEX', 'C07', {'framing': 'ascii', 'why': 'ascii-non-hex-accepted'},
-  'ASCII framer parses the unit and LRC fields with int(.., 16), which tolerates blanks, tabs and underscores: a frame with such a character in those fields passes the check'),
  ('KF-C08-FOREIGN-FC', 'C08', {'class': 'foreign-reply-returned', 'mismatch': 'fc'},
   'sync client returns a reply whose function code does not answer the request (any frame read during the call is stored under the request\'s tid)'),
  ('KF-C08-FOREIGN-TID', 'C08', {'class': 'foreign-reply-returned', 'mismatch': 'tid'},
